@@ -66,249 +66,249 @@ def PC.inNotify : PC → Bool
 /-! ### evaluation lemmas for the pc classes (generated; one per class and constructor, so that `simp` never
     unfolds a class on an unknown pc) -/
 
-@[simp] theorem PC.holds_idle : PC.holds .idle = false := rfl
-@[simp] theorem PC.holds_wLock : PC.holds .wLock = false := rfl
-@[simp] theorem PC.holds_wLoad : PC.holds .wLoad = true := rfl
-@[simp] theorem PC.holds_wUnlockNe : PC.holds .wUnlockNe = true := rfl
-@[simp] theorem PC.holds_wAlloc : PC.holds .wAlloc = true := rfl
-@[simp] theorem PC.holds_wMapCreate : PC.holds .wMapCreate = true := rfl
-@[simp] theorem PC.holds_wMapGet : PC.holds .wMapGet = true := rfl
-@[simp] theorem PC.holds_wMapInsert : PC.holds .wMapInsert = true := rfl
-@[simp] theorem PC.holds_wPrepend : PC.holds .wPrepend = true := rfl
-@[simp] theorem PC.holds_wCondWait : PC.holds .wCondWait = true := rfl
-@[simp] theorem PC.holds_wParked : PC.holds .wParked = false := rfl
-@[simp] theorem PC.holds_wCheck : PC.holds .wCheck = true := rfl
-@[simp] theorem PC.holds_wIsTimeout : PC.holds .wIsTimeout = true := rfl
-@[simp] theorem PC.holds_wRemove : PC.holds .wRemove = true := rfl
-@[simp] theorem PC.holds_wMapRemove : PC.holds .wMapRemove = true := rfl
-@[simp] theorem PC.holds_wFree : PC.holds .wFree = true := rfl
-@[simp] theorem PC.holds_wUnlock : PC.holds .wUnlock = true := rfl
-@[simp] theorem PC.holds_nShared : PC.holds .nShared = false := rfl
-@[simp] theorem PC.holds_nLock : PC.holds .nLock = false := rfl
-@[simp] theorem PC.holds_nGetMap : PC.holds .nGetMap = true := rfl
-@[simp] theorem PC.holds_nMapGet : PC.holds .nMapGet = true := rfl
-@[simp] theorem PC.holds_nHead : PC.holds .nHead = true := rfl
-@[simp] theorem PC.holds_nLoop : PC.holds .nLoop = true := rfl
-@[simp] theorem PC.holds_nSignal : PC.holds .nSignal = true := rfl
-@[simp] theorem PC.holds_nUnlock : PC.holds .nUnlock = true := rfl
-@[simp] theorem PC.holds_sPoint : PC.holds .sPoint = false := rfl
-@[simp] theorem PC.holds_crashed (k : Crash) : PC.holds (.crashed k) = false := rfl
-@[simp] theorem PC.hasWait_idle : PC.hasWait .idle = false := rfl
-@[simp] theorem PC.hasWait_wLock : PC.hasWait .wLock = false := rfl
-@[simp] theorem PC.hasWait_wLoad : PC.hasWait .wLoad = false := rfl
-@[simp] theorem PC.hasWait_wUnlockNe : PC.hasWait .wUnlockNe = false := rfl
-@[simp] theorem PC.hasWait_wAlloc : PC.hasWait .wAlloc = false := rfl
-@[simp] theorem PC.hasWait_wMapCreate : PC.hasWait .wMapCreate = true := rfl
-@[simp] theorem PC.hasWait_wMapGet : PC.hasWait .wMapGet = true := rfl
-@[simp] theorem PC.hasWait_wMapInsert : PC.hasWait .wMapInsert = true := rfl
-@[simp] theorem PC.hasWait_wPrepend : PC.hasWait .wPrepend = true := rfl
-@[simp] theorem PC.hasWait_wCondWait : PC.hasWait .wCondWait = true := rfl
-@[simp] theorem PC.hasWait_wParked : PC.hasWait .wParked = true := rfl
-@[simp] theorem PC.hasWait_wCheck : PC.hasWait .wCheck = true := rfl
-@[simp] theorem PC.hasWait_wIsTimeout : PC.hasWait .wIsTimeout = true := rfl
-@[simp] theorem PC.hasWait_wRemove : PC.hasWait .wRemove = true := rfl
-@[simp] theorem PC.hasWait_wMapRemove : PC.hasWait .wMapRemove = true := rfl
-@[simp] theorem PC.hasWait_wFree : PC.hasWait .wFree = true := rfl
-@[simp] theorem PC.hasWait_wUnlock : PC.hasWait .wUnlock = false := rfl
-@[simp] theorem PC.hasWait_nShared : PC.hasWait .nShared = false := rfl
-@[simp] theorem PC.hasWait_nLock : PC.hasWait .nLock = false := rfl
-@[simp] theorem PC.hasWait_nGetMap : PC.hasWait .nGetMap = false := rfl
-@[simp] theorem PC.hasWait_nMapGet : PC.hasWait .nMapGet = false := rfl
-@[simp] theorem PC.hasWait_nHead : PC.hasWait .nHead = false := rfl
-@[simp] theorem PC.hasWait_nLoop : PC.hasWait .nLoop = false := rfl
-@[simp] theorem PC.hasWait_nSignal : PC.hasWait .nSignal = false := rfl
-@[simp] theorem PC.hasWait_nUnlock : PC.hasWait .nUnlock = false := rfl
-@[simp] theorem PC.hasWait_sPoint : PC.hasWait .sPoint = false := rfl
-@[simp] theorem PC.hasWait_crashed (k : Crash) : PC.hasWait (.crashed k) = false := rfl
-@[simp] theorem PC.enq_idle : PC.enq .idle = false := rfl
-@[simp] theorem PC.enq_wLock : PC.enq .wLock = false := rfl
-@[simp] theorem PC.enq_wLoad : PC.enq .wLoad = false := rfl
-@[simp] theorem PC.enq_wUnlockNe : PC.enq .wUnlockNe = false := rfl
-@[simp] theorem PC.enq_wAlloc : PC.enq .wAlloc = false := rfl
-@[simp] theorem PC.enq_wMapCreate : PC.enq .wMapCreate = false := rfl
-@[simp] theorem PC.enq_wMapGet : PC.enq .wMapGet = false := rfl
-@[simp] theorem PC.enq_wMapInsert : PC.enq .wMapInsert = false := rfl
-@[simp] theorem PC.enq_wPrepend : PC.enq .wPrepend = false := rfl
-@[simp] theorem PC.enq_wCondWait : PC.enq .wCondWait = true := rfl
-@[simp] theorem PC.enq_wParked : PC.enq .wParked = true := rfl
-@[simp] theorem PC.enq_wCheck : PC.enq .wCheck = true := rfl
-@[simp] theorem PC.enq_wIsTimeout : PC.enq .wIsTimeout = true := rfl
-@[simp] theorem PC.enq_wRemove : PC.enq .wRemove = true := rfl
-@[simp] theorem PC.enq_wMapRemove : PC.enq .wMapRemove = false := rfl
-@[simp] theorem PC.enq_wFree : PC.enq .wFree = false := rfl
-@[simp] theorem PC.enq_wUnlock : PC.enq .wUnlock = false := rfl
-@[simp] theorem PC.enq_nShared : PC.enq .nShared = false := rfl
-@[simp] theorem PC.enq_nLock : PC.enq .nLock = false := rfl
-@[simp] theorem PC.enq_nGetMap : PC.enq .nGetMap = false := rfl
-@[simp] theorem PC.enq_nMapGet : PC.enq .nMapGet = false := rfl
-@[simp] theorem PC.enq_nHead : PC.enq .nHead = false := rfl
-@[simp] theorem PC.enq_nLoop : PC.enq .nLoop = false := rfl
-@[simp] theorem PC.enq_nSignal : PC.enq .nSignal = false := rfl
-@[simp] theorem PC.enq_nUnlock : PC.enq .nUnlock = false := rfl
-@[simp] theorem PC.enq_sPoint : PC.enq .sPoint = false := rfl
-@[simp] theorem PC.enq_crashed (k : Crash) : PC.enq (.crashed k) = false := rfl
-@[simp] theorem PC.hasSlot_idle : PC.hasSlot .idle = false := rfl
-@[simp] theorem PC.hasSlot_wLock : PC.hasSlot .wLock = false := rfl
-@[simp] theorem PC.hasSlot_wLoad : PC.hasSlot .wLoad = false := rfl
-@[simp] theorem PC.hasSlot_wUnlockNe : PC.hasSlot .wUnlockNe = false := rfl
-@[simp] theorem PC.hasSlot_wAlloc : PC.hasSlot .wAlloc = false := rfl
-@[simp] theorem PC.hasSlot_wMapCreate : PC.hasSlot .wMapCreate = false := rfl
-@[simp] theorem PC.hasSlot_wMapGet : PC.hasSlot .wMapGet = false := rfl
-@[simp] theorem PC.hasSlot_wMapInsert : PC.hasSlot .wMapInsert = false := rfl
-@[simp] theorem PC.hasSlot_wPrepend : PC.hasSlot .wPrepend = true := rfl
-@[simp] theorem PC.hasSlot_wCondWait : PC.hasSlot .wCondWait = true := rfl
-@[simp] theorem PC.hasSlot_wParked : PC.hasSlot .wParked = true := rfl
-@[simp] theorem PC.hasSlot_wCheck : PC.hasSlot .wCheck = true := rfl
-@[simp] theorem PC.hasSlot_wIsTimeout : PC.hasSlot .wIsTimeout = true := rfl
-@[simp] theorem PC.hasSlot_wRemove : PC.hasSlot .wRemove = true := rfl
-@[simp] theorem PC.hasSlot_wMapRemove : PC.hasSlot .wMapRemove = true := rfl
-@[simp] theorem PC.hasSlot_wFree : PC.hasSlot .wFree = false := rfl
-@[simp] theorem PC.hasSlot_wUnlock : PC.hasSlot .wUnlock = false := rfl
-@[simp] theorem PC.hasSlot_nShared : PC.hasSlot .nShared = false := rfl
-@[simp] theorem PC.hasSlot_nLock : PC.hasSlot .nLock = false := rfl
-@[simp] theorem PC.hasSlot_nGetMap : PC.hasSlot .nGetMap = false := rfl
-@[simp] theorem PC.hasSlot_nMapGet : PC.hasSlot .nMapGet = false := rfl
-@[simp] theorem PC.hasSlot_nHead : PC.hasSlot .nHead = true := rfl
-@[simp] theorem PC.hasSlot_nLoop : PC.hasSlot .nLoop = true := rfl
-@[simp] theorem PC.hasSlot_nSignal : PC.hasSlot .nSignal = true := rfl
-@[simp] theorem PC.hasSlot_nUnlock : PC.hasSlot .nUnlock = false := rfl
-@[simp] theorem PC.hasSlot_sPoint : PC.hasSlot .sPoint = false := rfl
-@[simp] theorem PC.hasSlot_crashed (k : Crash) : PC.hasSlot (.crashed k) = false := rfl
-@[simp] theorem PC.afterCreate_idle : PC.afterCreate .idle = false := rfl
-@[simp] theorem PC.afterCreate_wLock : PC.afterCreate .wLock = false := rfl
-@[simp] theorem PC.afterCreate_wLoad : PC.afterCreate .wLoad = false := rfl
-@[simp] theorem PC.afterCreate_wUnlockNe : PC.afterCreate .wUnlockNe = false := rfl
-@[simp] theorem PC.afterCreate_wAlloc : PC.afterCreate .wAlloc = false := rfl
-@[simp] theorem PC.afterCreate_wMapCreate : PC.afterCreate .wMapCreate = false := rfl
-@[simp] theorem PC.afterCreate_wMapGet : PC.afterCreate .wMapGet = true := rfl
-@[simp] theorem PC.afterCreate_wMapInsert : PC.afterCreate .wMapInsert = true := rfl
-@[simp] theorem PC.afterCreate_wPrepend : PC.afterCreate .wPrepend = true := rfl
-@[simp] theorem PC.afterCreate_wCondWait : PC.afterCreate .wCondWait = true := rfl
-@[simp] theorem PC.afterCreate_wParked : PC.afterCreate .wParked = true := rfl
-@[simp] theorem PC.afterCreate_wCheck : PC.afterCreate .wCheck = true := rfl
-@[simp] theorem PC.afterCreate_wIsTimeout : PC.afterCreate .wIsTimeout = true := rfl
-@[simp] theorem PC.afterCreate_wRemove : PC.afterCreate .wRemove = true := rfl
-@[simp] theorem PC.afterCreate_wMapRemove : PC.afterCreate .wMapRemove = true := rfl
-@[simp] theorem PC.afterCreate_wFree : PC.afterCreate .wFree = true := rfl
-@[simp] theorem PC.afterCreate_wUnlock : PC.afterCreate .wUnlock = false := rfl
-@[simp] theorem PC.afterCreate_nShared : PC.afterCreate .nShared = false := rfl
-@[simp] theorem PC.afterCreate_nLock : PC.afterCreate .nLock = false := rfl
-@[simp] theorem PC.afterCreate_nGetMap : PC.afterCreate .nGetMap = false := rfl
-@[simp] theorem PC.afterCreate_nMapGet : PC.afterCreate .nMapGet = true := rfl
-@[simp] theorem PC.afterCreate_nHead : PC.afterCreate .nHead = true := rfl
-@[simp] theorem PC.afterCreate_nLoop : PC.afterCreate .nLoop = true := rfl
-@[simp] theorem PC.afterCreate_nSignal : PC.afterCreate .nSignal = true := rfl
-@[simp] theorem PC.afterCreate_nUnlock : PC.afterCreate .nUnlock = false := rfl
-@[simp] theorem PC.afterCreate_sPoint : PC.afterCreate .sPoint = false := rfl
-@[simp] theorem PC.afterCreate_crashed (k : Crash) : PC.afterCreate (.crashed k) = false := rfl
-@[simp] theorem PC.afterInsert_idle : PC.afterInsert .idle = false := rfl
-@[simp] theorem PC.afterInsert_wLock : PC.afterInsert .wLock = false := rfl
-@[simp] theorem PC.afterInsert_wLoad : PC.afterInsert .wLoad = false := rfl
-@[simp] theorem PC.afterInsert_wUnlockNe : PC.afterInsert .wUnlockNe = false := rfl
-@[simp] theorem PC.afterInsert_wAlloc : PC.afterInsert .wAlloc = false := rfl
-@[simp] theorem PC.afterInsert_wMapCreate : PC.afterInsert .wMapCreate = false := rfl
-@[simp] theorem PC.afterInsert_wMapGet : PC.afterInsert .wMapGet = false := rfl
-@[simp] theorem PC.afterInsert_wMapInsert : PC.afterInsert .wMapInsert = false := rfl
-@[simp] theorem PC.afterInsert_wPrepend : PC.afterInsert .wPrepend = true := rfl
-@[simp] theorem PC.afterInsert_wCondWait : PC.afterInsert .wCondWait = true := rfl
-@[simp] theorem PC.afterInsert_wParked : PC.afterInsert .wParked = true := rfl
-@[simp] theorem PC.afterInsert_wCheck : PC.afterInsert .wCheck = true := rfl
-@[simp] theorem PC.afterInsert_wIsTimeout : PC.afterInsert .wIsTimeout = true := rfl
-@[simp] theorem PC.afterInsert_wRemove : PC.afterInsert .wRemove = true := rfl
-@[simp] theorem PC.afterInsert_wMapRemove : PC.afterInsert .wMapRemove = true := rfl
-@[simp] theorem PC.afterInsert_wFree : PC.afterInsert .wFree = true := rfl
-@[simp] theorem PC.afterInsert_wUnlock : PC.afterInsert .wUnlock = true := rfl
-@[simp] theorem PC.afterInsert_nShared : PC.afterInsert .nShared = false := rfl
-@[simp] theorem PC.afterInsert_nLock : PC.afterInsert .nLock = false := rfl
-@[simp] theorem PC.afterInsert_nGetMap : PC.afterInsert .nGetMap = false := rfl
-@[simp] theorem PC.afterInsert_nMapGet : PC.afterInsert .nMapGet = false := rfl
-@[simp] theorem PC.afterInsert_nHead : PC.afterInsert .nHead = false := rfl
-@[simp] theorem PC.afterInsert_nLoop : PC.afterInsert .nLoop = false := rfl
-@[simp] theorem PC.afterInsert_nSignal : PC.afterInsert .nSignal = false := rfl
-@[simp] theorem PC.afterInsert_nUnlock : PC.afterInsert .nUnlock = false := rfl
-@[simp] theorem PC.afterInsert_sPoint : PC.afterInsert .sPoint = false := rfl
-@[simp] theorem PC.afterInsert_crashed (k : Crash) : PC.afterInsert (.crashed k) = false := rfl
-@[simp] theorem PC.afterAlloc_idle : PC.afterAlloc .idle = false := rfl
-@[simp] theorem PC.afterAlloc_wLock : PC.afterAlloc .wLock = false := rfl
-@[simp] theorem PC.afterAlloc_wLoad : PC.afterAlloc .wLoad = false := rfl
-@[simp] theorem PC.afterAlloc_wUnlockNe : PC.afterAlloc .wUnlockNe = false := rfl
-@[simp] theorem PC.afterAlloc_wAlloc : PC.afterAlloc .wAlloc = false := rfl
-@[simp] theorem PC.afterAlloc_wMapCreate : PC.afterAlloc .wMapCreate = true := rfl
-@[simp] theorem PC.afterAlloc_wMapGet : PC.afterAlloc .wMapGet = true := rfl
-@[simp] theorem PC.afterAlloc_wMapInsert : PC.afterAlloc .wMapInsert = true := rfl
-@[simp] theorem PC.afterAlloc_wPrepend : PC.afterAlloc .wPrepend = true := rfl
-@[simp] theorem PC.afterAlloc_wCondWait : PC.afterAlloc .wCondWait = true := rfl
-@[simp] theorem PC.afterAlloc_wParked : PC.afterAlloc .wParked = true := rfl
-@[simp] theorem PC.afterAlloc_wCheck : PC.afterAlloc .wCheck = true := rfl
-@[simp] theorem PC.afterAlloc_wIsTimeout : PC.afterAlloc .wIsTimeout = true := rfl
-@[simp] theorem PC.afterAlloc_wRemove : PC.afterAlloc .wRemove = true := rfl
-@[simp] theorem PC.afterAlloc_wMapRemove : PC.afterAlloc .wMapRemove = true := rfl
-@[simp] theorem PC.afterAlloc_wFree : PC.afterAlloc .wFree = true := rfl
-@[simp] theorem PC.afterAlloc_wUnlock : PC.afterAlloc .wUnlock = true := rfl
-@[simp] theorem PC.afterAlloc_nShared : PC.afterAlloc .nShared = false := rfl
-@[simp] theorem PC.afterAlloc_nLock : PC.afterAlloc .nLock = false := rfl
-@[simp] theorem PC.afterAlloc_nGetMap : PC.afterAlloc .nGetMap = false := rfl
-@[simp] theorem PC.afterAlloc_nMapGet : PC.afterAlloc .nMapGet = false := rfl
-@[simp] theorem PC.afterAlloc_nHead : PC.afterAlloc .nHead = false := rfl
-@[simp] theorem PC.afterAlloc_nLoop : PC.afterAlloc .nLoop = false := rfl
-@[simp] theorem PC.afterAlloc_nSignal : PC.afterAlloc .nSignal = false := rfl
-@[simp] theorem PC.afterAlloc_nUnlock : PC.afterAlloc .nUnlock = false := rfl
-@[simp] theorem PC.afterAlloc_sPoint : PC.afterAlloc .sPoint = false := rfl
-@[simp] theorem PC.afterAlloc_crashed (k : Crash) : PC.afterAlloc (.crashed k) = false := rfl
-@[simp] theorem PC.inWait_idle : PC.inWait .idle = false := rfl
-@[simp] theorem PC.inWait_wLock : PC.inWait .wLock = true := rfl
-@[simp] theorem PC.inWait_wLoad : PC.inWait .wLoad = true := rfl
-@[simp] theorem PC.inWait_wUnlockNe : PC.inWait .wUnlockNe = true := rfl
-@[simp] theorem PC.inWait_wAlloc : PC.inWait .wAlloc = true := rfl
-@[simp] theorem PC.inWait_wMapCreate : PC.inWait .wMapCreate = true := rfl
-@[simp] theorem PC.inWait_wMapGet : PC.inWait .wMapGet = true := rfl
-@[simp] theorem PC.inWait_wMapInsert : PC.inWait .wMapInsert = true := rfl
-@[simp] theorem PC.inWait_wPrepend : PC.inWait .wPrepend = true := rfl
-@[simp] theorem PC.inWait_wCondWait : PC.inWait .wCondWait = true := rfl
-@[simp] theorem PC.inWait_wParked : PC.inWait .wParked = true := rfl
-@[simp] theorem PC.inWait_wCheck : PC.inWait .wCheck = true := rfl
-@[simp] theorem PC.inWait_wIsTimeout : PC.inWait .wIsTimeout = true := rfl
-@[simp] theorem PC.inWait_wRemove : PC.inWait .wRemove = true := rfl
-@[simp] theorem PC.inWait_wMapRemove : PC.inWait .wMapRemove = true := rfl
-@[simp] theorem PC.inWait_wFree : PC.inWait .wFree = true := rfl
-@[simp] theorem PC.inWait_wUnlock : PC.inWait .wUnlock = true := rfl
-@[simp] theorem PC.inWait_nShared : PC.inWait .nShared = false := rfl
-@[simp] theorem PC.inWait_nLock : PC.inWait .nLock = false := rfl
-@[simp] theorem PC.inWait_nGetMap : PC.inWait .nGetMap = false := rfl
-@[simp] theorem PC.inWait_nMapGet : PC.inWait .nMapGet = false := rfl
-@[simp] theorem PC.inWait_nHead : PC.inWait .nHead = false := rfl
-@[simp] theorem PC.inWait_nLoop : PC.inWait .nLoop = false := rfl
-@[simp] theorem PC.inWait_nSignal : PC.inWait .nSignal = false := rfl
-@[simp] theorem PC.inWait_nUnlock : PC.inWait .nUnlock = false := rfl
-@[simp] theorem PC.inWait_sPoint : PC.inWait .sPoint = false := rfl
-@[simp] theorem PC.inWait_crashed (k : Crash) : PC.inWait (.crashed k) = false := rfl
-@[simp] theorem PC.inNotify_idle : PC.inNotify .idle = false := rfl
-@[simp] theorem PC.inNotify_wLock : PC.inNotify .wLock = false := rfl
-@[simp] theorem PC.inNotify_wLoad : PC.inNotify .wLoad = false := rfl
-@[simp] theorem PC.inNotify_wUnlockNe : PC.inNotify .wUnlockNe = false := rfl
-@[simp] theorem PC.inNotify_wAlloc : PC.inNotify .wAlloc = false := rfl
-@[simp] theorem PC.inNotify_wMapCreate : PC.inNotify .wMapCreate = false := rfl
-@[simp] theorem PC.inNotify_wMapGet : PC.inNotify .wMapGet = false := rfl
-@[simp] theorem PC.inNotify_wMapInsert : PC.inNotify .wMapInsert = false := rfl
-@[simp] theorem PC.inNotify_wPrepend : PC.inNotify .wPrepend = false := rfl
-@[simp] theorem PC.inNotify_wCondWait : PC.inNotify .wCondWait = false := rfl
-@[simp] theorem PC.inNotify_wParked : PC.inNotify .wParked = false := rfl
-@[simp] theorem PC.inNotify_wCheck : PC.inNotify .wCheck = false := rfl
-@[simp] theorem PC.inNotify_wIsTimeout : PC.inNotify .wIsTimeout = false := rfl
-@[simp] theorem PC.inNotify_wRemove : PC.inNotify .wRemove = false := rfl
-@[simp] theorem PC.inNotify_wMapRemove : PC.inNotify .wMapRemove = false := rfl
-@[simp] theorem PC.inNotify_wFree : PC.inNotify .wFree = false := rfl
-@[simp] theorem PC.inNotify_wUnlock : PC.inNotify .wUnlock = false := rfl
-@[simp] theorem PC.inNotify_nShared : PC.inNotify .nShared = true := rfl
-@[simp] theorem PC.inNotify_nLock : PC.inNotify .nLock = true := rfl
-@[simp] theorem PC.inNotify_nGetMap : PC.inNotify .nGetMap = true := rfl
-@[simp] theorem PC.inNotify_nMapGet : PC.inNotify .nMapGet = true := rfl
-@[simp] theorem PC.inNotify_nHead : PC.inNotify .nHead = true := rfl
-@[simp] theorem PC.inNotify_nLoop : PC.inNotify .nLoop = true := rfl
-@[simp] theorem PC.inNotify_nSignal : PC.inNotify .nSignal = true := rfl
-@[simp] theorem PC.inNotify_nUnlock : PC.inNotify .nUnlock = true := rfl
-@[simp] theorem PC.inNotify_sPoint : PC.inNotify .sPoint = false := rfl
-@[simp] theorem PC.inNotify_crashed (k : Crash) : PC.inNotify (.crashed k) = false := rfl
+@[simp, grind =] theorem PC.holds_idle : PC.holds .idle = false := rfl
+@[simp, grind =] theorem PC.holds_wLock : PC.holds .wLock = false := rfl
+@[simp, grind =] theorem PC.holds_wLoad : PC.holds .wLoad = true := rfl
+@[simp, grind =] theorem PC.holds_wUnlockNe : PC.holds .wUnlockNe = true := rfl
+@[simp, grind =] theorem PC.holds_wAlloc : PC.holds .wAlloc = true := rfl
+@[simp, grind =] theorem PC.holds_wMapCreate : PC.holds .wMapCreate = true := rfl
+@[simp, grind =] theorem PC.holds_wMapGet : PC.holds .wMapGet = true := rfl
+@[simp, grind =] theorem PC.holds_wMapInsert : PC.holds .wMapInsert = true := rfl
+@[simp, grind =] theorem PC.holds_wPrepend : PC.holds .wPrepend = true := rfl
+@[simp, grind =] theorem PC.holds_wCondWait : PC.holds .wCondWait = true := rfl
+@[simp, grind =] theorem PC.holds_wParked : PC.holds .wParked = false := rfl
+@[simp, grind =] theorem PC.holds_wCheck : PC.holds .wCheck = true := rfl
+@[simp, grind =] theorem PC.holds_wIsTimeout : PC.holds .wIsTimeout = true := rfl
+@[simp, grind =] theorem PC.holds_wRemove : PC.holds .wRemove = true := rfl
+@[simp, grind =] theorem PC.holds_wMapRemove : PC.holds .wMapRemove = true := rfl
+@[simp, grind =] theorem PC.holds_wFree : PC.holds .wFree = true := rfl
+@[simp, grind =] theorem PC.holds_wUnlock : PC.holds .wUnlock = true := rfl
+@[simp, grind =] theorem PC.holds_nShared : PC.holds .nShared = false := rfl
+@[simp, grind =] theorem PC.holds_nLock : PC.holds .nLock = false := rfl
+@[simp, grind =] theorem PC.holds_nGetMap : PC.holds .nGetMap = true := rfl
+@[simp, grind =] theorem PC.holds_nMapGet : PC.holds .nMapGet = true := rfl
+@[simp, grind =] theorem PC.holds_nHead : PC.holds .nHead = true := rfl
+@[simp, grind =] theorem PC.holds_nLoop : PC.holds .nLoop = true := rfl
+@[simp, grind =] theorem PC.holds_nSignal : PC.holds .nSignal = true := rfl
+@[simp, grind =] theorem PC.holds_nUnlock : PC.holds .nUnlock = true := rfl
+@[simp, grind =] theorem PC.holds_sPoint : PC.holds .sPoint = false := rfl
+@[simp, grind =] theorem PC.holds_crashed (k : Crash) : PC.holds (.crashed k) = false := rfl
+@[simp, grind =] theorem PC.hasWait_idle : PC.hasWait .idle = false := rfl
+@[simp, grind =] theorem PC.hasWait_wLock : PC.hasWait .wLock = false := rfl
+@[simp, grind =] theorem PC.hasWait_wLoad : PC.hasWait .wLoad = false := rfl
+@[simp, grind =] theorem PC.hasWait_wUnlockNe : PC.hasWait .wUnlockNe = false := rfl
+@[simp, grind =] theorem PC.hasWait_wAlloc : PC.hasWait .wAlloc = false := rfl
+@[simp, grind =] theorem PC.hasWait_wMapCreate : PC.hasWait .wMapCreate = true := rfl
+@[simp, grind =] theorem PC.hasWait_wMapGet : PC.hasWait .wMapGet = true := rfl
+@[simp, grind =] theorem PC.hasWait_wMapInsert : PC.hasWait .wMapInsert = true := rfl
+@[simp, grind =] theorem PC.hasWait_wPrepend : PC.hasWait .wPrepend = true := rfl
+@[simp, grind =] theorem PC.hasWait_wCondWait : PC.hasWait .wCondWait = true := rfl
+@[simp, grind =] theorem PC.hasWait_wParked : PC.hasWait .wParked = true := rfl
+@[simp, grind =] theorem PC.hasWait_wCheck : PC.hasWait .wCheck = true := rfl
+@[simp, grind =] theorem PC.hasWait_wIsTimeout : PC.hasWait .wIsTimeout = true := rfl
+@[simp, grind =] theorem PC.hasWait_wRemove : PC.hasWait .wRemove = true := rfl
+@[simp, grind =] theorem PC.hasWait_wMapRemove : PC.hasWait .wMapRemove = true := rfl
+@[simp, grind =] theorem PC.hasWait_wFree : PC.hasWait .wFree = true := rfl
+@[simp, grind =] theorem PC.hasWait_wUnlock : PC.hasWait .wUnlock = false := rfl
+@[simp, grind =] theorem PC.hasWait_nShared : PC.hasWait .nShared = false := rfl
+@[simp, grind =] theorem PC.hasWait_nLock : PC.hasWait .nLock = false := rfl
+@[simp, grind =] theorem PC.hasWait_nGetMap : PC.hasWait .nGetMap = false := rfl
+@[simp, grind =] theorem PC.hasWait_nMapGet : PC.hasWait .nMapGet = false := rfl
+@[simp, grind =] theorem PC.hasWait_nHead : PC.hasWait .nHead = false := rfl
+@[simp, grind =] theorem PC.hasWait_nLoop : PC.hasWait .nLoop = false := rfl
+@[simp, grind =] theorem PC.hasWait_nSignal : PC.hasWait .nSignal = false := rfl
+@[simp, grind =] theorem PC.hasWait_nUnlock : PC.hasWait .nUnlock = false := rfl
+@[simp, grind =] theorem PC.hasWait_sPoint : PC.hasWait .sPoint = false := rfl
+@[simp, grind =] theorem PC.hasWait_crashed (k : Crash) : PC.hasWait (.crashed k) = false := rfl
+@[simp, grind =] theorem PC.enq_idle : PC.enq .idle = false := rfl
+@[simp, grind =] theorem PC.enq_wLock : PC.enq .wLock = false := rfl
+@[simp, grind =] theorem PC.enq_wLoad : PC.enq .wLoad = false := rfl
+@[simp, grind =] theorem PC.enq_wUnlockNe : PC.enq .wUnlockNe = false := rfl
+@[simp, grind =] theorem PC.enq_wAlloc : PC.enq .wAlloc = false := rfl
+@[simp, grind =] theorem PC.enq_wMapCreate : PC.enq .wMapCreate = false := rfl
+@[simp, grind =] theorem PC.enq_wMapGet : PC.enq .wMapGet = false := rfl
+@[simp, grind =] theorem PC.enq_wMapInsert : PC.enq .wMapInsert = false := rfl
+@[simp, grind =] theorem PC.enq_wPrepend : PC.enq .wPrepend = false := rfl
+@[simp, grind =] theorem PC.enq_wCondWait : PC.enq .wCondWait = true := rfl
+@[simp, grind =] theorem PC.enq_wParked : PC.enq .wParked = true := rfl
+@[simp, grind =] theorem PC.enq_wCheck : PC.enq .wCheck = true := rfl
+@[simp, grind =] theorem PC.enq_wIsTimeout : PC.enq .wIsTimeout = true := rfl
+@[simp, grind =] theorem PC.enq_wRemove : PC.enq .wRemove = true := rfl
+@[simp, grind =] theorem PC.enq_wMapRemove : PC.enq .wMapRemove = false := rfl
+@[simp, grind =] theorem PC.enq_wFree : PC.enq .wFree = false := rfl
+@[simp, grind =] theorem PC.enq_wUnlock : PC.enq .wUnlock = false := rfl
+@[simp, grind =] theorem PC.enq_nShared : PC.enq .nShared = false := rfl
+@[simp, grind =] theorem PC.enq_nLock : PC.enq .nLock = false := rfl
+@[simp, grind =] theorem PC.enq_nGetMap : PC.enq .nGetMap = false := rfl
+@[simp, grind =] theorem PC.enq_nMapGet : PC.enq .nMapGet = false := rfl
+@[simp, grind =] theorem PC.enq_nHead : PC.enq .nHead = false := rfl
+@[simp, grind =] theorem PC.enq_nLoop : PC.enq .nLoop = false := rfl
+@[simp, grind =] theorem PC.enq_nSignal : PC.enq .nSignal = false := rfl
+@[simp, grind =] theorem PC.enq_nUnlock : PC.enq .nUnlock = false := rfl
+@[simp, grind =] theorem PC.enq_sPoint : PC.enq .sPoint = false := rfl
+@[simp, grind =] theorem PC.enq_crashed (k : Crash) : PC.enq (.crashed k) = false := rfl
+@[simp, grind =] theorem PC.hasSlot_idle : PC.hasSlot .idle = false := rfl
+@[simp, grind =] theorem PC.hasSlot_wLock : PC.hasSlot .wLock = false := rfl
+@[simp, grind =] theorem PC.hasSlot_wLoad : PC.hasSlot .wLoad = false := rfl
+@[simp, grind =] theorem PC.hasSlot_wUnlockNe : PC.hasSlot .wUnlockNe = false := rfl
+@[simp, grind =] theorem PC.hasSlot_wAlloc : PC.hasSlot .wAlloc = false := rfl
+@[simp, grind =] theorem PC.hasSlot_wMapCreate : PC.hasSlot .wMapCreate = false := rfl
+@[simp, grind =] theorem PC.hasSlot_wMapGet : PC.hasSlot .wMapGet = false := rfl
+@[simp, grind =] theorem PC.hasSlot_wMapInsert : PC.hasSlot .wMapInsert = false := rfl
+@[simp, grind =] theorem PC.hasSlot_wPrepend : PC.hasSlot .wPrepend = true := rfl
+@[simp, grind =] theorem PC.hasSlot_wCondWait : PC.hasSlot .wCondWait = true := rfl
+@[simp, grind =] theorem PC.hasSlot_wParked : PC.hasSlot .wParked = true := rfl
+@[simp, grind =] theorem PC.hasSlot_wCheck : PC.hasSlot .wCheck = true := rfl
+@[simp, grind =] theorem PC.hasSlot_wIsTimeout : PC.hasSlot .wIsTimeout = true := rfl
+@[simp, grind =] theorem PC.hasSlot_wRemove : PC.hasSlot .wRemove = true := rfl
+@[simp, grind =] theorem PC.hasSlot_wMapRemove : PC.hasSlot .wMapRemove = true := rfl
+@[simp, grind =] theorem PC.hasSlot_wFree : PC.hasSlot .wFree = false := rfl
+@[simp, grind =] theorem PC.hasSlot_wUnlock : PC.hasSlot .wUnlock = false := rfl
+@[simp, grind =] theorem PC.hasSlot_nShared : PC.hasSlot .nShared = false := rfl
+@[simp, grind =] theorem PC.hasSlot_nLock : PC.hasSlot .nLock = false := rfl
+@[simp, grind =] theorem PC.hasSlot_nGetMap : PC.hasSlot .nGetMap = false := rfl
+@[simp, grind =] theorem PC.hasSlot_nMapGet : PC.hasSlot .nMapGet = false := rfl
+@[simp, grind =] theorem PC.hasSlot_nHead : PC.hasSlot .nHead = true := rfl
+@[simp, grind =] theorem PC.hasSlot_nLoop : PC.hasSlot .nLoop = true := rfl
+@[simp, grind =] theorem PC.hasSlot_nSignal : PC.hasSlot .nSignal = true := rfl
+@[simp, grind =] theorem PC.hasSlot_nUnlock : PC.hasSlot .nUnlock = false := rfl
+@[simp, grind =] theorem PC.hasSlot_sPoint : PC.hasSlot .sPoint = false := rfl
+@[simp, grind =] theorem PC.hasSlot_crashed (k : Crash) : PC.hasSlot (.crashed k) = false := rfl
+@[simp, grind =] theorem PC.afterCreate_idle : PC.afterCreate .idle = false := rfl
+@[simp, grind =] theorem PC.afterCreate_wLock : PC.afterCreate .wLock = false := rfl
+@[simp, grind =] theorem PC.afterCreate_wLoad : PC.afterCreate .wLoad = false := rfl
+@[simp, grind =] theorem PC.afterCreate_wUnlockNe : PC.afterCreate .wUnlockNe = false := rfl
+@[simp, grind =] theorem PC.afterCreate_wAlloc : PC.afterCreate .wAlloc = false := rfl
+@[simp, grind =] theorem PC.afterCreate_wMapCreate : PC.afterCreate .wMapCreate = false := rfl
+@[simp, grind =] theorem PC.afterCreate_wMapGet : PC.afterCreate .wMapGet = true := rfl
+@[simp, grind =] theorem PC.afterCreate_wMapInsert : PC.afterCreate .wMapInsert = true := rfl
+@[simp, grind =] theorem PC.afterCreate_wPrepend : PC.afterCreate .wPrepend = true := rfl
+@[simp, grind =] theorem PC.afterCreate_wCondWait : PC.afterCreate .wCondWait = true := rfl
+@[simp, grind =] theorem PC.afterCreate_wParked : PC.afterCreate .wParked = true := rfl
+@[simp, grind =] theorem PC.afterCreate_wCheck : PC.afterCreate .wCheck = true := rfl
+@[simp, grind =] theorem PC.afterCreate_wIsTimeout : PC.afterCreate .wIsTimeout = true := rfl
+@[simp, grind =] theorem PC.afterCreate_wRemove : PC.afterCreate .wRemove = true := rfl
+@[simp, grind =] theorem PC.afterCreate_wMapRemove : PC.afterCreate .wMapRemove = true := rfl
+@[simp, grind =] theorem PC.afterCreate_wFree : PC.afterCreate .wFree = true := rfl
+@[simp, grind =] theorem PC.afterCreate_wUnlock : PC.afterCreate .wUnlock = false := rfl
+@[simp, grind =] theorem PC.afterCreate_nShared : PC.afterCreate .nShared = false := rfl
+@[simp, grind =] theorem PC.afterCreate_nLock : PC.afterCreate .nLock = false := rfl
+@[simp, grind =] theorem PC.afterCreate_nGetMap : PC.afterCreate .nGetMap = false := rfl
+@[simp, grind =] theorem PC.afterCreate_nMapGet : PC.afterCreate .nMapGet = true := rfl
+@[simp, grind =] theorem PC.afterCreate_nHead : PC.afterCreate .nHead = true := rfl
+@[simp, grind =] theorem PC.afterCreate_nLoop : PC.afterCreate .nLoop = true := rfl
+@[simp, grind =] theorem PC.afterCreate_nSignal : PC.afterCreate .nSignal = true := rfl
+@[simp, grind =] theorem PC.afterCreate_nUnlock : PC.afterCreate .nUnlock = false := rfl
+@[simp, grind =] theorem PC.afterCreate_sPoint : PC.afterCreate .sPoint = false := rfl
+@[simp, grind =] theorem PC.afterCreate_crashed (k : Crash) : PC.afterCreate (.crashed k) = false := rfl
+@[simp, grind =] theorem PC.afterInsert_idle : PC.afterInsert .idle = false := rfl
+@[simp, grind =] theorem PC.afterInsert_wLock : PC.afterInsert .wLock = false := rfl
+@[simp, grind =] theorem PC.afterInsert_wLoad : PC.afterInsert .wLoad = false := rfl
+@[simp, grind =] theorem PC.afterInsert_wUnlockNe : PC.afterInsert .wUnlockNe = false := rfl
+@[simp, grind =] theorem PC.afterInsert_wAlloc : PC.afterInsert .wAlloc = false := rfl
+@[simp, grind =] theorem PC.afterInsert_wMapCreate : PC.afterInsert .wMapCreate = false := rfl
+@[simp, grind =] theorem PC.afterInsert_wMapGet : PC.afterInsert .wMapGet = false := rfl
+@[simp, grind =] theorem PC.afterInsert_wMapInsert : PC.afterInsert .wMapInsert = false := rfl
+@[simp, grind =] theorem PC.afterInsert_wPrepend : PC.afterInsert .wPrepend = true := rfl
+@[simp, grind =] theorem PC.afterInsert_wCondWait : PC.afterInsert .wCondWait = true := rfl
+@[simp, grind =] theorem PC.afterInsert_wParked : PC.afterInsert .wParked = true := rfl
+@[simp, grind =] theorem PC.afterInsert_wCheck : PC.afterInsert .wCheck = true := rfl
+@[simp, grind =] theorem PC.afterInsert_wIsTimeout : PC.afterInsert .wIsTimeout = true := rfl
+@[simp, grind =] theorem PC.afterInsert_wRemove : PC.afterInsert .wRemove = true := rfl
+@[simp, grind =] theorem PC.afterInsert_wMapRemove : PC.afterInsert .wMapRemove = true := rfl
+@[simp, grind =] theorem PC.afterInsert_wFree : PC.afterInsert .wFree = true := rfl
+@[simp, grind =] theorem PC.afterInsert_wUnlock : PC.afterInsert .wUnlock = true := rfl
+@[simp, grind =] theorem PC.afterInsert_nShared : PC.afterInsert .nShared = false := rfl
+@[simp, grind =] theorem PC.afterInsert_nLock : PC.afterInsert .nLock = false := rfl
+@[simp, grind =] theorem PC.afterInsert_nGetMap : PC.afterInsert .nGetMap = false := rfl
+@[simp, grind =] theorem PC.afterInsert_nMapGet : PC.afterInsert .nMapGet = false := rfl
+@[simp, grind =] theorem PC.afterInsert_nHead : PC.afterInsert .nHead = false := rfl
+@[simp, grind =] theorem PC.afterInsert_nLoop : PC.afterInsert .nLoop = false := rfl
+@[simp, grind =] theorem PC.afterInsert_nSignal : PC.afterInsert .nSignal = false := rfl
+@[simp, grind =] theorem PC.afterInsert_nUnlock : PC.afterInsert .nUnlock = false := rfl
+@[simp, grind =] theorem PC.afterInsert_sPoint : PC.afterInsert .sPoint = false := rfl
+@[simp, grind =] theorem PC.afterInsert_crashed (k : Crash) : PC.afterInsert (.crashed k) = false := rfl
+@[simp, grind =] theorem PC.afterAlloc_idle : PC.afterAlloc .idle = false := rfl
+@[simp, grind =] theorem PC.afterAlloc_wLock : PC.afterAlloc .wLock = false := rfl
+@[simp, grind =] theorem PC.afterAlloc_wLoad : PC.afterAlloc .wLoad = false := rfl
+@[simp, grind =] theorem PC.afterAlloc_wUnlockNe : PC.afterAlloc .wUnlockNe = false := rfl
+@[simp, grind =] theorem PC.afterAlloc_wAlloc : PC.afterAlloc .wAlloc = false := rfl
+@[simp, grind =] theorem PC.afterAlloc_wMapCreate : PC.afterAlloc .wMapCreate = true := rfl
+@[simp, grind =] theorem PC.afterAlloc_wMapGet : PC.afterAlloc .wMapGet = true := rfl
+@[simp, grind =] theorem PC.afterAlloc_wMapInsert : PC.afterAlloc .wMapInsert = true := rfl
+@[simp, grind =] theorem PC.afterAlloc_wPrepend : PC.afterAlloc .wPrepend = true := rfl
+@[simp, grind =] theorem PC.afterAlloc_wCondWait : PC.afterAlloc .wCondWait = true := rfl
+@[simp, grind =] theorem PC.afterAlloc_wParked : PC.afterAlloc .wParked = true := rfl
+@[simp, grind =] theorem PC.afterAlloc_wCheck : PC.afterAlloc .wCheck = true := rfl
+@[simp, grind =] theorem PC.afterAlloc_wIsTimeout : PC.afterAlloc .wIsTimeout = true := rfl
+@[simp, grind =] theorem PC.afterAlloc_wRemove : PC.afterAlloc .wRemove = true := rfl
+@[simp, grind =] theorem PC.afterAlloc_wMapRemove : PC.afterAlloc .wMapRemove = true := rfl
+@[simp, grind =] theorem PC.afterAlloc_wFree : PC.afterAlloc .wFree = true := rfl
+@[simp, grind =] theorem PC.afterAlloc_wUnlock : PC.afterAlloc .wUnlock = true := rfl
+@[simp, grind =] theorem PC.afterAlloc_nShared : PC.afterAlloc .nShared = false := rfl
+@[simp, grind =] theorem PC.afterAlloc_nLock : PC.afterAlloc .nLock = false := rfl
+@[simp, grind =] theorem PC.afterAlloc_nGetMap : PC.afterAlloc .nGetMap = false := rfl
+@[simp, grind =] theorem PC.afterAlloc_nMapGet : PC.afterAlloc .nMapGet = false := rfl
+@[simp, grind =] theorem PC.afterAlloc_nHead : PC.afterAlloc .nHead = false := rfl
+@[simp, grind =] theorem PC.afterAlloc_nLoop : PC.afterAlloc .nLoop = false := rfl
+@[simp, grind =] theorem PC.afterAlloc_nSignal : PC.afterAlloc .nSignal = false := rfl
+@[simp, grind =] theorem PC.afterAlloc_nUnlock : PC.afterAlloc .nUnlock = false := rfl
+@[simp, grind =] theorem PC.afterAlloc_sPoint : PC.afterAlloc .sPoint = false := rfl
+@[simp, grind =] theorem PC.afterAlloc_crashed (k : Crash) : PC.afterAlloc (.crashed k) = false := rfl
+@[simp, grind =] theorem PC.inWait_idle : PC.inWait .idle = false := rfl
+@[simp, grind =] theorem PC.inWait_wLock : PC.inWait .wLock = true := rfl
+@[simp, grind =] theorem PC.inWait_wLoad : PC.inWait .wLoad = true := rfl
+@[simp, grind =] theorem PC.inWait_wUnlockNe : PC.inWait .wUnlockNe = true := rfl
+@[simp, grind =] theorem PC.inWait_wAlloc : PC.inWait .wAlloc = true := rfl
+@[simp, grind =] theorem PC.inWait_wMapCreate : PC.inWait .wMapCreate = true := rfl
+@[simp, grind =] theorem PC.inWait_wMapGet : PC.inWait .wMapGet = true := rfl
+@[simp, grind =] theorem PC.inWait_wMapInsert : PC.inWait .wMapInsert = true := rfl
+@[simp, grind =] theorem PC.inWait_wPrepend : PC.inWait .wPrepend = true := rfl
+@[simp, grind =] theorem PC.inWait_wCondWait : PC.inWait .wCondWait = true := rfl
+@[simp, grind =] theorem PC.inWait_wParked : PC.inWait .wParked = true := rfl
+@[simp, grind =] theorem PC.inWait_wCheck : PC.inWait .wCheck = true := rfl
+@[simp, grind =] theorem PC.inWait_wIsTimeout : PC.inWait .wIsTimeout = true := rfl
+@[simp, grind =] theorem PC.inWait_wRemove : PC.inWait .wRemove = true := rfl
+@[simp, grind =] theorem PC.inWait_wMapRemove : PC.inWait .wMapRemove = true := rfl
+@[simp, grind =] theorem PC.inWait_wFree : PC.inWait .wFree = true := rfl
+@[simp, grind =] theorem PC.inWait_wUnlock : PC.inWait .wUnlock = true := rfl
+@[simp, grind =] theorem PC.inWait_nShared : PC.inWait .nShared = false := rfl
+@[simp, grind =] theorem PC.inWait_nLock : PC.inWait .nLock = false := rfl
+@[simp, grind =] theorem PC.inWait_nGetMap : PC.inWait .nGetMap = false := rfl
+@[simp, grind =] theorem PC.inWait_nMapGet : PC.inWait .nMapGet = false := rfl
+@[simp, grind =] theorem PC.inWait_nHead : PC.inWait .nHead = false := rfl
+@[simp, grind =] theorem PC.inWait_nLoop : PC.inWait .nLoop = false := rfl
+@[simp, grind =] theorem PC.inWait_nSignal : PC.inWait .nSignal = false := rfl
+@[simp, grind =] theorem PC.inWait_nUnlock : PC.inWait .nUnlock = false := rfl
+@[simp, grind =] theorem PC.inWait_sPoint : PC.inWait .sPoint = false := rfl
+@[simp, grind =] theorem PC.inWait_crashed (k : Crash) : PC.inWait (.crashed k) = false := rfl
+@[simp, grind =] theorem PC.inNotify_idle : PC.inNotify .idle = false := rfl
+@[simp, grind =] theorem PC.inNotify_wLock : PC.inNotify .wLock = false := rfl
+@[simp, grind =] theorem PC.inNotify_wLoad : PC.inNotify .wLoad = false := rfl
+@[simp, grind =] theorem PC.inNotify_wUnlockNe : PC.inNotify .wUnlockNe = false := rfl
+@[simp, grind =] theorem PC.inNotify_wAlloc : PC.inNotify .wAlloc = false := rfl
+@[simp, grind =] theorem PC.inNotify_wMapCreate : PC.inNotify .wMapCreate = false := rfl
+@[simp, grind =] theorem PC.inNotify_wMapGet : PC.inNotify .wMapGet = false := rfl
+@[simp, grind =] theorem PC.inNotify_wMapInsert : PC.inNotify .wMapInsert = false := rfl
+@[simp, grind =] theorem PC.inNotify_wPrepend : PC.inNotify .wPrepend = false := rfl
+@[simp, grind =] theorem PC.inNotify_wCondWait : PC.inNotify .wCondWait = false := rfl
+@[simp, grind =] theorem PC.inNotify_wParked : PC.inNotify .wParked = false := rfl
+@[simp, grind =] theorem PC.inNotify_wCheck : PC.inNotify .wCheck = false := rfl
+@[simp, grind =] theorem PC.inNotify_wIsTimeout : PC.inNotify .wIsTimeout = false := rfl
+@[simp, grind =] theorem PC.inNotify_wRemove : PC.inNotify .wRemove = false := rfl
+@[simp, grind =] theorem PC.inNotify_wMapRemove : PC.inNotify .wMapRemove = false := rfl
+@[simp, grind =] theorem PC.inNotify_wFree : PC.inNotify .wFree = false := rfl
+@[simp, grind =] theorem PC.inNotify_wUnlock : PC.inNotify .wUnlock = false := rfl
+@[simp, grind =] theorem PC.inNotify_nShared : PC.inNotify .nShared = true := rfl
+@[simp, grind =] theorem PC.inNotify_nLock : PC.inNotify .nLock = true := rfl
+@[simp, grind =] theorem PC.inNotify_nGetMap : PC.inNotify .nGetMap = true := rfl
+@[simp, grind =] theorem PC.inNotify_nMapGet : PC.inNotify .nMapGet = true := rfl
+@[simp, grind =] theorem PC.inNotify_nHead : PC.inNotify .nHead = true := rfl
+@[simp, grind =] theorem PC.inNotify_nLoop : PC.inNotify .nLoop = true := rfl
+@[simp, grind =] theorem PC.inNotify_nSignal : PC.inNotify .nSignal = true := rfl
+@[simp, grind =] theorem PC.inNotify_nUnlock : PC.inNotify .nUnlock = true := rfl
+@[simp, grind =] theorem PC.inNotify_sPoint : PC.inNotify .sPoint = false := rfl
+@[simp, grind =] theorem PC.inNotify_crashed (k : Crash) : PC.inNotify (.crashed k) = false := rfl
 
 /-! ### the invariant (part A: heap shape, ownership, liveness, mutex, parking) -/
 
